@@ -19,12 +19,13 @@ META = {
 CLASSES = ["data3d", "force3d", "emg", "events"]
 
 
-def _mk(I, cls, lens, kind="any"):
+def _mk(I, cls, lens, kind="any", nvals=1):
     blk = S.new_block(I, cls)
     labs, items = [], []
     for j, L in enumerate(lens):
         lab = I.chars(f"lab{j}", L, kind=kind)
-        it = S.new_item(I, cls, lab, fill=float(j + 1))
+        # events: alternate between events without values (falsy objects) and with values
+        it = S.new_item(I, cls, lab, fill=float(j + 1), nvals=(nvals if j % 2 == 0 else 1))
         S.add_item(cls, blk, it)
         labs.append(lab)
         items.append(it)
@@ -80,9 +81,9 @@ def bigint_case(cls, lens, value):
     return h
 
 
-def str_case(cls, lens, klen):
+def str_case(cls, lens, klen, nvals=1):
     def h(I):
-        blk, labs, items = _mk(I, cls, lens)
+        blk, labs, items = _mk(I, cls, lens, nvals=nvals)
         before = _snapshot(cls, blk)
         key = I.chars("key", klen, kind="any")
         try:
@@ -161,6 +162,8 @@ def instances(tier):
                 if kl in lens:
                     goals.append("present")
                 out.append(Instance(f"{cls}.str.{nm}.k{kl}", str_case(cls, lens, kl), goals=goals, cost=2 ** n))
+                if cls == "events" and n:
+                    out.append(Instance(f"{cls}.str.{nm}.k{kl}.novalues", str_case(cls, lens, kl, nvals=0), goals=goals, cost=2 ** n))
             out.append(Instance(f"{cls}.other.{nm}", other_case(cls, lens), goals=["done"]))
         for v in (2**31, -2**31, 2**63, -2**63 - 1, 2**64, 10**30):
             out.append(Instance(f"{cls}.bigint.{v}", bigint_case(cls, (1, 1), v), goals=["out_of_range"]))
